@@ -34,7 +34,7 @@ RespTimeout == 5000
 
 H0 == [ urgent |-> FALSE, family |-> "", done |-> FALSE,
         cmd |-> <<>>, tg |-> <<>>, rq |-> <<>>, svc |-> <<>>,
-        inst |-> <<>>, oldlb |-> {}, rlb |-> <<>>, pauseSeq |-> 0,
+        inst |-> <<>>, oldlb |-> {}, rlb |-> <<>>, pauseSeq |-> 0, drn |-> {},
         mem |-> <<>>,        \* C12: configurations observed in memory, in order: <<seq, cfg>>
         running |-> {},      \* commands called and not yet returned
         since |-> 0 ]        \* seq of the oldest memory observation a snapshot written now may still legitimately show
@@ -148,7 +148,7 @@ UpdCliSend(h, e) ==
               tg |-> NoTg, beg |-> 0, begT |-> 0, endSeq |-> 0, endT |-> 0, how |-> "", nbeg |-> 0,
               curAtSend |-> sv.cur, curRAtSend |-> sv.curR, pAtSend |-> sv.pstate, pdefAtSend |-> sv.pdef,
               pcmdAtSend |-> sv.pcmd, closed |-> 0,
-              ver |-> -1, lb |-> 0, stale |-> FALSE, gateSeq |-> 0, gateclaim |-> FALSE, claimSeq |-> 0 ]
+              ver |-> -1, lb |-> 0, stale |-> FALSE, gateSeq |-> 0, gateclaim |-> FALSE, claimSeq |-> 0, accDrain |-> FALSE, rsvc |-> e.svc ]
   IN [h EXCEPT !.rq = Put(@, e.r, r)]
 
 UpdTgBeg(h, e) ==
@@ -175,7 +175,8 @@ UpdCliRecv(h, e) ==
 UpdCliClosed(h, e) == IF ~Has(h.rq, e.r) THEN h ELSE [h EXCEPT !.rq[e.r].closed = e.seq]
 
 \* internal events, used for known-finding signatures only
-UpdRouted(h, e) == IF ~Has(h.rq, e.r) THEN h ELSE [h EXCEPT !.rq[e.r].ver = e.ver]
+UpdRouted(h, e) == IF ~Has(h.rq, e.r) THEN h
+                   ELSE [h EXCEPT !.rq[e.r].ver = e.ver, !.rq[e.r].rsvc = IF "svc" \in DOMAIN e THEN e.svc ELSE h.rq[e.r].svc]
 UpdInstall(h, e) == [h EXCEPT !.inst = Put(@, e.svc, e.ver)]
 UpdUpdateLb(h, e) ==
   IF e.slot = 1
@@ -192,10 +193,15 @@ UpdPauseState(h, e) == IF e.state \in {1, 2} THEN [h EXCEPT !.pauseSeq = e.seq] 
 UpdClaim(h, e) ==
   IF ~Has(h.rq, e.r) THEN h
   ELSE LET r == h.rq[e.r]
-           verStale == r.ver > 0 /\ Has(h.inst, r.svc) /\ h.inst[r.svc] # r.ver
+           verStale == r.ver > 0 /\ Has(h.inst, r.rsvc) /\ h.inst[r.rsvc] # r.ver
            lbStale  == r.lb \in h.oldlb
        IN [h EXCEPT !.rq[e.r].claimSeq = e.seq, !.rq[e.r].stale = verStale \/ lbStale,
-                    !.rq[e.r].gateclaim = r.gateSeq # 0 /\ r.gateSeq < h.pauseSeq]
+                    !.rq[e.r].gateclaim = r.gateSeq # 0 /\ r.gateSeq < h.pauseSeq,
+                    \* the target accepted the request although it was marked draining (both under the same lock):
+                    \* never the case in the recorded findings, where such a claim is refused
+                    !.rq[e.r].accDrain = (e.ev = "e_claim" /\ <<e.tg, e.tid>> \in h.drn)]
+\* draining mark of a target instance (set and cleared under the lock that also guards the claim)
+UpdTargetState(h, e) == [h EXCEPT !.drn = IF e.state = 1 THEN @ \cup {<<e.tg, e.tid>>} ELSE @ \ {<<e.tg, e.tid>>}]
 
 \* C12 bookkeeping
 UpdMem(h, e) == [h EXCEPT !.mem = Append(@, <<e.seq, e.cfg>>)]
@@ -225,12 +231,14 @@ Upd(h, e) ==
     [] e.ev = "e_remove"       -> UpdRemove(h, e)
     [] e.ev = "e_pause_state"  -> UpdPauseState(h, e)
     [] e.ev \in {"e_claim", "e_claim_refused", "e_claim_none"} -> UpdClaim(h, e)
+    [] e.ev \in {"e_target_state", "e_hc_apply"} -> UpdTargetState(h, e)    \* a probe result may end the draining mark too
     [] OTHER -> h
 
 (***************************************************************************)
 (* Known-finding signatures of a request                                   *)
 (***************************************************************************)
-Sig(r) == IF r.stale /\ r.gateclaim THEN "stale-ref+gate-claim"
+Sig(r) == IF r.accDrain THEN "accepted-while-draining"
+          ELSE IF r.stale /\ r.gateclaim THEN "stale-ref+gate-claim"
           ELSE IF r.stale THEN "stale-ref" ELSE IF r.gateclaim THEN "gate-claim" ELSE ""
 
 (***************************************************************************)
